@@ -1,4 +1,5 @@
 import MicroHttp.Props.C07
+import MicroHttp.Props.C07History
 import MicroHttp.Props.C08System
 import MicroHttp.Props.C10History
 import MicroHttp.Props.Tables
@@ -10,6 +11,8 @@ import MicroHttp.Props.Tables
 #print axioms MicroHttp.C07.event_frame
 #print axioms MicroHttp.C07.wrote_own_bytes
 #print axioms MicroHttp.C07.server_reply_to_own_input
+#print axioms MicroHttp.C07.token_identifies_throughout
+#print axioms MicroHttp.C07.every_answer_routed
 #print axioms MicroHttp.C08.received_is_own_queue
 #print axioms MicroHttp.C08.queue_is_answers_and_interims
 #print axioms MicroHttp.C10.history_inv
